@@ -2,6 +2,7 @@ package main
 
 import (
 	"fmt"
+	"os"
 	"strings"
 
 	"github.com/aquilax/hranoprovod-cli/v3/verifshim"
@@ -126,6 +127,15 @@ var c05Cmds = shapeArgs(func(s cmdShape) bool { return true })
 func checkC05(w *Worker) {
 	w.appInit()
 	inputs := c05Inputs()
+	if only := os.Getenv("VERIF_C05_INPUT"); only != "" { // development aid: one input by name prefix
+		var sub []c05Input
+		for _, in := range inputs {
+			if strings.Contains(in.Name, only) {
+				sub = append(sub, in)
+			}
+		}
+		inputs = sub
+	}
 	c05Schedules(w, inputs)
 	c05Again(w, inputs)
 	baseCache := map[string]AppRun{}
